@@ -12,11 +12,11 @@ def DInv (ctx : DecCtx) : Prop := ctx.bits % 2 = 0 ∧ ctx.bits ≤ 6
 theorem dinv_init : DInv decodeInit := by simp [DInv, decodeInit]
 
 /-- one character: the invariant is kept and `8 * (bytes stored) + bits'` does not exceed `bits + 6` -/
-theorem single_inv (ctx : DecCtx) (c : UInt8) (h : DInv ctx) :
-    DInv (decodeSingle ctx c).1 ∧
-    (match (decodeSingle ctx c).2 with
-     | .byte _ => (decodeSingle ctx c).1.bits + 8 ≤ ctx.bits + 6
-     | _ => (decodeSingle ctx c).1.bits ≤ ctx.bits + 6) := by
+theorem single_inv (lim : Nat) (ctx : DecCtx) (c : UInt8) (h : DInv ctx) :
+    DInv (decodeSingle lim ctx c).1 ∧
+    (match (decodeSingle lim ctx c).2 with
+     | .byte _ => (decodeSingle lim ctx c).1.bits + 8 ≤ ctx.bits + 6
+     | _ => (decodeSingle lim ctx c).1.bits ≤ ctx.bits + 6) := by
   obtain ⟨h2, h6⟩ := h
   rcases char_cases c with hc | hc | hc | ⟨v, hv, hc⟩
   · simp [single_invalid hc, DInv, h2, h6]
@@ -39,16 +39,16 @@ theorem single_inv (ctx : DecCtx) (c : UInt8) (h : DInv ctx) :
 
 /-- `base64_decode_update` from an invariant context: invariant kept, and the number of bytes stored
 (also when it fails part-way) obeys `8 * stored + bits' ≤ bits + 6 * length` -/
-theorem update_inv (s : Bytes) : ∀ ctx, DInv ctx →
-    DInv (decodeUpdate ctx s).1 ∧
-    8 * (decodeUpdate ctx s).2.1.length + (decodeUpdate ctx s).1.bits ≤ ctx.bits + 6 * s.length := by
+theorem update_inv (lim : Nat) (s : Bytes) : ∀ ctx, DInv ctx →
+    DInv (decodeUpdate lim ctx s).1 ∧
+    8 * (decodeUpdate lim ctx s).2.1.length + (decodeUpdate lim ctx s).1.bits ≤ ctx.bits + 6 * s.length := by
   induction s with
   | nil => intro ctx h; simp [decodeUpdate, h]
   | cons c cs ih =>
     intro ctx h
-    have hs := single_inv ctx c h
+    have hs := single_inv lim ctx c h
     unfold decodeUpdate
-    generalize hd : decodeSingle ctx c = r at hs
+    generalize hd : decodeSingle lim ctx c = r at hs
     obtain ⟨ctx', st⟩ := r
     cases st with
     | err => simp only at hs ⊢; refine ⟨hs.1, ?_⟩; simp; omega
@@ -65,7 +65,7 @@ theorem update_inv (s : Bytes) : ∀ ctx, DInv ctx →
       simp only [List.length_cons]; omega
 
 /-- the assert of base64_decode_single never fires -/
-theorem single_no_assert (ctx : DecCtx) (c : UInt8) : (decodeSingle ctx c).2 ≠ .assertFail := by
+theorem single_no_assert (lim : Nat) (ctx : DecCtx) (c : UInt8) : (decodeSingle lim ctx c).2 ≠ .assertFail := by
   rcases char_cases c with hc | hc | hc | ⟨v, hv, hc⟩
   · simp [single_invalid hc]
   · simp [single_ws hc]
@@ -78,14 +78,14 @@ theorem single_no_assert (ctx : DecCtx) (c : UInt8) : (decodeSingle ctx c).2 ≠
     · simp
     · split <;> simp
 
-theorem update_no_assert (s : Bytes) : ∀ ctx, (decodeUpdate ctx s).2.2 ≠ .assertFail := by
+theorem update_no_assert (lim : Nat) (s : Bytes) : ∀ ctx, (decodeUpdate lim ctx s).2.2 ≠ .assertFail := by
   induction s with
   | nil => intro ctx; simp [decodeUpdate]
   | cons c cs ih =>
     intro ctx
-    have hs := single_no_assert ctx c
+    have hs := single_no_assert lim ctx c
     unfold decodeUpdate
-    generalize decodeSingle ctx c = r at hs
+    generalize decodeSingle lim ctx c = r at hs
     obtain ⟨ctx', st⟩ := r
     cases st with
     | err => simp
@@ -94,18 +94,18 @@ theorem update_no_assert (s : Bytes) : ∀ ctx, (decodeUpdate ctx s).2.2 ≠ .as
     | byte b => exact ih ctx'
 
 /-- context after a sequence of update calls (whatever they returned) -/
-def decodeCtxAfter (ctx : DecCtx) : List Bytes → DecCtx
+def decodeCtxAfter (lim : Nat) (ctx : DecCtx) : List Bytes → DecCtx
   | [] => ctx
-  | s :: rest => decodeCtxAfter (decodeUpdate ctx s).1 rest
+  | s :: rest => decodeCtxAfter lim (decodeUpdate lim ctx s).1 rest
 
-theorem dinv_after (chunks : List Bytes) : ∀ ctx, DInv ctx → DInv (decodeCtxAfter ctx chunks) := by
+theorem dinv_after (lim : Nat) (chunks : List Bytes) : ∀ ctx, DInv ctx → DInv (decodeCtxAfter lim ctx chunks) := by
   induction chunks with
   | nil => intro ctx h; exact h
-  | cons s rest ih => intro ctx h; exact ih _ (update_inv s ctx h).1
+  | cons s rest ih => intro ctx h; exact ih _ (update_inv lim s ctx h).1
 
 /-! ### white space -/
 
-theorem update_strip (s : Bytes) : ∀ ctx, decodeUpdate ctx (strip s) = decodeUpdate ctx s := by
+theorem update_strip (lim : Nat) (s : Bytes) : ∀ ctx, decodeUpdate lim ctx (strip s) = decodeUpdate lim ctx s := by
   induction s with
   | nil => intro ctx; rfl
   | cons c cs ih =>
@@ -121,24 +121,24 @@ theorem update_strip (s : Bytes) : ∀ ctx, decodeUpdate ctx (strip s) = decodeU
       unfold decodeUpdate
       simp only [ih]
 
-theorem decodeUpdate_cons (ctx : DecCtx) (c : UInt8) (cs : Bytes) :
-    decodeUpdate ctx (c :: cs) =
-      match decodeSingle ctx c with
+theorem decodeUpdate_cons (lim : Nat) (ctx : DecCtx) (c : UInt8) (cs : Bytes) :
+    decodeUpdate lim ctx (c :: cs) =
+      match decodeSingle lim ctx c with
       | (ctx', .err) => (ctx', [], .bad)
       | (ctx', .assertFail) => (ctx', [], .assertFail)
-      | (ctx', .none) => decodeUpdate ctx' cs
-      | (ctx', .byte b) => ((decodeUpdate ctx' cs).1, b :: (decodeUpdate ctx' cs).2.1, (decodeUpdate ctx' cs).2.2) := by
+      | (ctx', .none) => decodeUpdate lim ctx' cs
+      | (ctx', .byte b) => ((decodeUpdate lim ctx' cs).1, b :: (decodeUpdate lim ctx' cs).2.1, (decodeUpdate lim ctx' cs).2.2) := by
   rw [decodeUpdate]
   rfl
 
-theorem update_append_ok (s t : Bytes) : ∀ ctx ctx' out, decodeUpdate ctx s = (ctx', out, .ok) →
-    decodeUpdate ctx (s ++ t) = ((decodeUpdate ctx' t).1, out ++ (decodeUpdate ctx' t).2.1, (decodeUpdate ctx' t).2.2) := by
+theorem update_append_ok (lim : Nat) (s t : Bytes) : ∀ ctx ctx' out, decodeUpdate lim ctx s = (ctx', out, .ok) →
+    decodeUpdate lim ctx (s ++ t) = ((decodeUpdate lim ctx' t).1, out ++ (decodeUpdate lim ctx' t).2.1, (decodeUpdate lim ctx' t).2.2) := by
   induction s with
   | nil => intro ctx ctx' out h; simp [decodeUpdate] at h; obtain ⟨rfl, rfl⟩ := h; simp
   | cons c cs ih =>
     intro ctx ctx' out h
     simp only [List.cons_append, decodeUpdate_cons] at h ⊢
-    generalize decodeSingle ctx c = r at h ⊢
+    generalize decodeSingle lim ctx c = r at h ⊢
     obtain ⟨c1, st⟩ := r
     cases st with
     | err => simp at h
@@ -146,21 +146,21 @@ theorem update_append_ok (s t : Bytes) : ∀ ctx ctx' out, decodeUpdate ctx s = 
     | none => simp only at h ⊢; exact ih c1 ctx' out h
     | byte b =>
       simp only at h ⊢
-      generalize hr : decodeUpdate c1 cs = r2 at h
+      generalize hr : decodeUpdate lim c1 cs = r2 at h
       obtain ⟨c2, o2, k2⟩ := r2
       simp only [Prod.mk.injEq] at h
       obtain ⟨rfl, rfl, rfl⟩ := h
       rw [ih c1 c2 o2 hr]
       simp
 
-theorem update_append_fail (s t : Bytes) : ∀ ctx ctx' out k, decodeUpdate ctx s = (ctx', out, k) → k ≠ .ok →
-    decodeUpdate ctx (s ++ t) = (ctx', out, k) := by
+theorem update_append_fail (lim : Nat) (s t : Bytes) : ∀ ctx ctx' out k, decodeUpdate lim ctx s = (ctx', out, k) → k ≠ .ok →
+    decodeUpdate lim ctx (s ++ t) = (ctx', out, k) := by
   induction s with
   | nil => intro ctx ctx' out k h hk; simp [decodeUpdate] at h; exact absurd h.2.2.symm hk
   | cons c cs ih =>
     intro ctx ctx' out k h hk
     simp only [List.cons_append, decodeUpdate_cons] at h ⊢
-    generalize decodeSingle ctx c = r at h ⊢
+    generalize decodeSingle lim ctx c = r at h ⊢
     obtain ⟨c1, st⟩ := r
     cases st with
     | err => simpa using h
@@ -168,7 +168,7 @@ theorem update_append_fail (s t : Bytes) : ∀ ctx ctx' out k, decodeUpdate ctx 
     | none => simp only at h ⊢; exact ih c1 ctx' out k h hk
     | byte b =>
       simp only at h ⊢
-      generalize hr : decodeUpdate c1 cs = r2 at h
+      generalize hr : decodeUpdate lim c1 cs = r2 at h
       obtain ⟨c2, o2, k2⟩ := r2
       simp only [Prod.mk.injEq] at h
       obtain ⟨rfl, rfl, rfl⟩ := h
@@ -179,32 +179,32 @@ theorem update_append_fail (s t : Bytes) : ∀ ctx ctx' out k, decodeUpdate ctx 
 /-- `ctx->word = ctx->word << 6 | data` -/
 def wstep (w v : Nat) : Nat := (w * 64 + v) % 65536
 
-theorem step0 {c : UInt8} {v : Nat} (h : tableAt c = (v : Int)) (hv : v < 64) (w : Nat) :
-    decodeSingle ⟨w, 0, 0⟩ c = (⟨wstep w v, 6, 0⟩, .none) := by
+theorem step0 {c : UInt8} {v : Nat} (h : tableAt c = (v : Int)) (hv : v < 64) (lim w : Nat) :
+    decodeSingle lim ⟨w, 0, 0⟩ c = (⟨wstep w v, 6, 0⟩, .none) := by
   rw [single_data h hv]; simp [wstep]
 
-theorem step6 {c : UInt8} {v : Nat} (h : tableAt c = (v : Int)) (hv : v < 64) (w : Nat) :
-    decodeSingle ⟨w, 6, 0⟩ c = (⟨wstep w v, 4, 0⟩, .byte (UInt8.ofNat (wstep w v / 16))) := by
+theorem step6 {c : UInt8} {v : Nat} (h : tableAt c = (v : Int)) (hv : v < 64) (lim w : Nat) :
+    decodeSingle lim ⟨w, 6, 0⟩ c = (⟨wstep w v, 4, 0⟩, .byte (UInt8.ofNat (wstep w v / 16))) := by
   rw [single_data h hv]; simp [wstep]
 
-theorem step4 {c : UInt8} {v : Nat} (h : tableAt c = (v : Int)) (hv : v < 64) (w : Nat) :
-    decodeSingle ⟨w, 4, 0⟩ c = (⟨wstep w v, 2, 0⟩, .byte (UInt8.ofNat (wstep w v / 4))) := by
+theorem step4 {c : UInt8} {v : Nat} (h : tableAt c = (v : Int)) (hv : v < 64) (lim w : Nat) :
+    decodeSingle lim ⟨w, 4, 0⟩ c = (⟨wstep w v, 2, 0⟩, .byte (UInt8.ofNat (wstep w v / 4))) := by
   rw [single_data h hv]; simp [wstep]
 
-theorem step2 {c : UInt8} {v : Nat} (h : tableAt c = (v : Int)) (hv : v < 64) (w : Nat) :
-    decodeSingle ⟨w, 2, 0⟩ c = (⟨wstep w v, 0, 0⟩, .byte (UInt8.ofNat (wstep w v))) := by
+theorem step2 {c : UInt8} {v : Nat} (h : tableAt c = (v : Int)) (hv : v < 64) (lim w : Nat) :
+    decodeSingle lim ⟨w, 2, 0⟩ c = (⟨wstep w v, 0, 0⟩, .byte (UInt8.ofNat (wstep w v))) := by
   rw [single_data h hv]; simp [wstep]
 
 /-- four data characters from bits = 0 -/
 theorem decode_quad {c1 c2 c3 c4 : UInt8} {v1 v2 v3 v4 : Nat}
     (h1 : tableAt c1 = (v1 : Int)) (h2 : tableAt c2 = (v2 : Int)) (h3 : tableAt c3 = (v3 : Int)) (h4 : tableAt c4 = (v4 : Int))
-    (l1 : v1 < 64) (l2 : v2 < 64) (l3 : v3 < 64) (l4 : v4 < 64) (w : Nat) (rest : Bytes) :
-    decodeUpdate ⟨w, 0, 0⟩ (c1 :: c2 :: c3 :: c4 :: rest) =
-      ((decodeUpdate ⟨wstep (wstep (wstep (wstep w v1) v2) v3) v4, 0, 0⟩ rest).1,
+    (l1 : v1 < 64) (l2 : v2 < 64) (l3 : v3 < 64) (l4 : v4 < 64) (lim w : Nat) (rest : Bytes) :
+    decodeUpdate lim ⟨w, 0, 0⟩ (c1 :: c2 :: c3 :: c4 :: rest) =
+      ((decodeUpdate lim ⟨wstep (wstep (wstep (wstep w v1) v2) v3) v4, 0, 0⟩ rest).1,
        UInt8.ofNat (wstep (wstep w v1) v2 / 16) :: UInt8.ofNat (wstep (wstep (wstep w v1) v2) v3 / 4) ::
          UInt8.ofNat (wstep (wstep (wstep (wstep w v1) v2) v3) v4) ::
-         (decodeUpdate ⟨wstep (wstep (wstep (wstep w v1) v2) v3) v4, 0, 0⟩ rest).2.1,
-       (decodeUpdate ⟨wstep (wstep (wstep (wstep w v1) v2) v3) v4, 0, 0⟩ rest).2.2) := by
+         (decodeUpdate lim ⟨wstep (wstep (wstep (wstep w v1) v2) v3) v4, 0, 0⟩ rest).2.1,
+       (decodeUpdate lim ⟨wstep (wstep (wstep (wstep w v1) v2) v3) v4, 0, 0⟩ rest).2.2) := by
   rw [decodeUpdate_cons, step0 h1 l1]
   simp only
   rw [decodeUpdate_cons, step6 h2 l2]
@@ -235,9 +235,9 @@ theorem enc_or2 (b c : UInt8) : (b.toNat <<< 2) ||| (c.toNat >>> 6) = b.toNat * 
   simpa [Nat.shiftRight_eq_div_pow] using this
 
 /-- a full group: four characters give back the three bytes and leave bits = 0 -/
-theorem decode_group (w : Nat) (a b c : UInt8) (rest : Bytes) :
-    ∃ w', decodeUpdate ⟨w, 0, 0⟩ (encodeRaw [a, b, c] ++ rest) =
-      ((decodeUpdate ⟨w', 0, 0⟩ rest).1, a :: b :: c :: (decodeUpdate ⟨w', 0, 0⟩ rest).2.1, (decodeUpdate ⟨w', 0, 0⟩ rest).2.2) := by
+theorem decode_group (lim w : Nat) (a b c : UInt8) (rest : Bytes) :
+    ∃ w', decodeUpdate lim ⟨w, 0, 0⟩ (encodeRaw [a, b, c] ++ rest) =
+      ((decodeUpdate lim ⟨w', 0, 0⟩ rest).1, a :: b :: c :: (decodeUpdate lim ⟨w', 0, 0⟩ rest).2.1, (decodeUpdate lim ⟨w', 0, 0⟩ rest).2.2) := by
   have ha := a.toNat_lt
   have hb := b.toNat_lt
   have hc := c.toNat_lt
@@ -258,17 +258,17 @@ theorem decode_group (w : Nat) (a b c : UInt8) (rest : Bytes) :
 theorem table_61 : tableAt 61 = -3 := by decide
 
 /-- an acceptable pad character -/
-theorem padstep (w b p : Nat) (hb : 2 ≤ b) (hb6 : b ≤ 6) (hp : p ≤ 2) (hw : w % 2 ^ b = 0) :
-    decodeSingle ⟨w, b, p⟩ 61 = (⟨w, b - 2, p + 1⟩, .none) := by
+theorem padstep (lim w b p : Nat) (hb : 2 ≤ b) (hb6 : b ≤ 6) (hp : p < lim) (hp2 : p ≤ 254) (hw : w % 2 ^ b = 0) :
+    decodeSingle lim ⟨w, b, p⟩ 61 = (⟨w, b - 2, p + 1⟩, .none) := by
   rw [single_pad table_61]
-  have h1 : ¬ (b = 0 ∨ p > 2) := by omega
+  have h1 : ¬ (b = 0 ∨ p ≥ lim) := by omega
   simp only [h1, ↓reduceIte, hw, ne_eq, not_true_eq_false]
   have e1 : (p + 1) % 256 = p + 1 := by omega
   have e2 : (b + 256 - 2) % 256 = b - 2 := by omega
   rw [e1, e2]
 
-theorem decode_tail1 (w : Nat) (a : UInt8) :
-    ∃ ctx', decodeUpdate ⟨w, 0, 0⟩ (encodeRaw [a]) = (ctx', [a], .ok) ∧ ctx'.bits = 0 ∧ ctx'.padding = 2 := by
+theorem decode_tail1 (lim w : Nat) (hlim : 2 ≤ lim) (a : UInt8) :
+    ∃ ctx', decodeUpdate lim ⟨w, 0, 0⟩ (encodeRaw [a]) = (ctx', [a], .ok) ∧ ctx'.bits = 0 ∧ ctx'.padding = 2 := by
   have ha := a.toNat_lt
   simp only [Nat.reducePow] at ha
   have m := fun x => Nat.mod_lt x (show 64 > 0 by decide)
@@ -282,17 +282,17 @@ theorem decode_tail1 (w : Nat) (a : UInt8) :
     simp only [wstep]; omega
   have hz2 : wstep (wstep w (a.toNat / 2 ^ 2 % 64)) (a.toNat * 2 ^ 4 % 64) % 2 ^ 2 = 0 := by
     simp only [wstep]; omega
-  rw [decodeUpdate_cons, padstep _ 4 0 (by decide) (by decide) (by decide) hz]
+  rw [decodeUpdate_cons, padstep lim _ 4 0 (by decide) (by decide) (by omega) (by decide) hz]
   simp only
-  rw [decodeUpdate_cons, padstep _ 2 1 (by decide) (by decide) (by decide) hz2]
+  rw [decodeUpdate_cons, padstep lim _ 2 1 (by decide) (by decide) (by omega) (by decide) hz2]
   simp only [decodeUpdate]
   have b0 : UInt8.ofNat (wstep (wstep w (a.toNat / 2 ^ 2 % 64)) (a.toNat * 2 ^ 4 % 64) / 16) = a := by
     rw [ofNat_eq_iff]; simp only [wstep]; omega
   rw [b0]
   exact ⟨_, rfl, rfl, rfl⟩
 
-theorem decode_tail2 (w : Nat) (a b : UInt8) :
-    ∃ ctx', decodeUpdate ⟨w, 0, 0⟩ (encodeRaw [a, b]) = (ctx', [a, b], .ok) ∧ ctx'.bits = 0 ∧ ctx'.padding = 1 := by
+theorem decode_tail2 (lim w : Nat) (hlim : 2 ≤ lim) (a b : UInt8) :
+    ∃ ctx', decodeUpdate lim ⟨w, 0, 0⟩ (encodeRaw [a, b]) = (ctx', [a, b], .ok) ∧ ctx'.bits = 0 ∧ ctx'.padding = 1 := by
   have ha := a.toNat_lt
   have hb := b.toNat_lt
   simp only [Nat.reducePow] at ha hb
@@ -307,7 +307,7 @@ theorem decode_tail2 (w : Nat) (a b : UInt8) :
   rw [enc_or1, Nat.shiftRight_eq_div_pow, Nat.shiftLeft_eq]
   have hz : wstep (wstep (wstep w (a.toNat / 2 ^ 2 % 64)) ((a.toNat * 16 + b.toNat / 16) % 64)) (b.toNat * 2 ^ 2 % 64) % 2 ^ 2 = 0 := by
     simp only [wstep]; omega
-  rw [decodeUpdate_cons, padstep _ 2 0 (by decide) (by decide) (by decide) hz]
+  rw [decodeUpdate_cons, padstep lim _ 2 0 (by decide) (by decide) (by omega) (by decide) hz]
   simp only [decodeUpdate]
   have b0 : UInt8.ofNat (wstep (wstep w (a.toNat / 2 ^ 2 % 64)) ((a.toNat * 16 + b.toNat / 16) % 64) / 16) = a := by
     rw [ofNat_eq_iff]; simp only [wstep]; omega
@@ -317,23 +317,23 @@ theorem decode_tail2 (w : Nat) (a b : UInt8) :
   exact ⟨_, rfl, rfl, rfl⟩
 
 /-- decoding the output of encode_raw, from any context with bits = 0 and no padding seen -/
-theorem decode_encodeRaw (x : Bytes) : ∀ w, ∃ ctx', decodeUpdate ⟨w, 0, 0⟩ (encodeRaw x) = (ctx', x, .ok) ∧
+theorem decode_encodeRaw (lim : Nat) (hlim : 2 ≤ lim) (x : Bytes) : ∀ w, ∃ ctx', decodeUpdate lim ⟨w, 0, 0⟩ (encodeRaw x) = (ctx', x, .ok) ∧
     ctx'.bits = 0 ∧ ctx'.padding ≤ 2 := by
   induction x using encodeRaw.induct with
   | case1 a b c rest ih =>
     intro w
-    obtain ⟨w', hg⟩ := decode_group w a b c (encodeRaw rest)
+    obtain ⟨w', hg⟩ := decode_group lim w a b c (encodeRaw rest)
     obtain ⟨ctx', h, hb, hp⟩ := ih w'
     refine ⟨ctx', ?_, hb, hp⟩
     have : encodeRaw (a :: b :: c :: rest) = encodeRaw [a, b, c] ++ encodeRaw rest := by simp [encodeRaw]
     rw [this, hg, h]
   | case2 a b =>
     intro w
-    obtain ⟨ctx', h, hb, hp⟩ := decode_tail2 w a b
+    obtain ⟨ctx', h, hb, hp⟩ := decode_tail2 lim w hlim a b
     exact ⟨ctx', h, hb, by omega⟩
   | case3 a =>
     intro w
-    obtain ⟨ctx', h, hb, hp⟩ := decode_tail1 w a
+    obtain ⟨ctx', h, hb, hp⟩ := decode_tail1 lim w hlim a
     exact ⟨ctx', h, hb, by omega⟩
   | case4 => intro w; exact ⟨_, rfl, rfl, Nat.zero_le _⟩
 
